@@ -7,6 +7,7 @@ package main
 // oracle on the edge list.
 
 import (
+	"bytes"
 	"context"
 	"encoding/json"
 	"errors"
@@ -230,6 +231,312 @@ func smallScope(r *common.Rand) {
 				for start := 0; start < n; start++ {
 					for depth := 0; depth <= 3; depth++ {
 						runSmall(&smallCase{Preds: o, Start: start, Limit: depth})
+					}
+				}
+			}
+		}
+	}
+}
+
+// ---------------------------------------------------------------- small scope with filters
+//
+// The same exhaustive graphs (n <= 3 in the quick tier, 4 in thorough), now with content: node 0 is
+// a blob, node i > 0 a manifest whose kind / artifactType / config type / annotations follow from
+// i, served plain or with its fields filled in; one of three filter stacks.  Compared with the
+// model (roots, call sequence, opts.FindPredecessors output per node) and judged on the attributes.
+
+type smallAttr struct {
+	kind, mt, at, cfg string
+	ann               map[string]string
+}
+
+func smallAttrs(i int) smallAttr {
+	switch {
+	case i == 0:
+		return smallAttr{kind: "O", mt: "application/octet-stream"}
+	case i%3 == 1:
+		return smallAttr{kind: "I", mt: ocispec.MediaTypeImageManifest, at: "t/a", cfg: "c/x", ann: map[string]string{"k": "v"}}
+	case i%3 == 2:
+		return smallAttr{kind: "I", mt: ocispec.MediaTypeImageManifest, at: "", cfg: "t/a"}
+	default:
+		return smallAttr{kind: "X", mt: ocispec.MediaTypeImageIndex, at: "t/b", ann: map[string]string{"k": "w"}}
+	}
+}
+
+func (a smallAttr) eff() string {
+	if a.kind == "I" && a.at == "" {
+		return a.cfg
+	}
+	return a.at
+}
+
+type smallFCase struct {
+	Preds   [][]int `json:"preds"`
+	Start   int     `json:"start"`
+	Limit   int     `json:"limit"`
+	Rich    bool    `json:"rich"`
+	Filters int     `json:"filters"` // 0: A ^t/a$   1: N k (nil regex)   2: N k ^v$ then A t/
+}
+
+type stubFSrc struct {
+	*stubSrc
+	rich bool
+}
+
+func (s stubFSrc) desc(i int) ocispec.Descriptor {
+	a := smallAttrs(i)
+	d := ocispec.Descriptor{MediaType: a.mt, Digest: digest.FromString(fmt.Sprintf("smallf-%d", i)), Size: int64(i + 1)}
+	return d
+}
+
+func (s stubFSrc) Fetch(_ context.Context, d ocispec.Descriptor) (io.ReadCloser, error) {
+	i, ok := s.byKey[keyOf(d)]
+	if !ok {
+		return nil, errors.New("unknown")
+	}
+	a := smallAttrs(i)
+	doc := map[string]any{"schemaVersion": 2, "mediaType": a.mt}
+	if a.at != "" {
+		doc["artifactType"] = a.at
+	}
+	if a.kind == "I" {
+		doc["config"] = map[string]any{"mediaType": a.cfg, "digest": digest.FromString("cfg").String(), "size": 2}
+		doc["layers"] = []any{}
+	} else {
+		doc["manifests"] = []any{}
+	}
+	if a.ann != nil {
+		doc["annotations"] = a.ann
+	}
+	js, _ := json.Marshal(doc)
+	return io.NopCloser(bytes.NewReader(js)), nil
+}
+
+func (s stubFSrc) Predecessors(_ context.Context, d ocispec.Descriptor) ([]ocispec.Descriptor, error) {
+	i, ok := s.byKey[keyOf(d)]
+	if !ok {
+		return nil, nil
+	}
+	s.stubSrc.listed = append(s.stubSrc.listed, i)
+	var out []ocispec.Descriptor
+	for _, p := range s.preds[i] {
+		pd := s.descs[p]
+		if s.rich {
+			a := smallAttrs(p)
+			pd.ArtifactType = a.eff()
+			pd.Annotations = map[string]string{}
+			for k, v := range a.ann {
+				pd.Annotations[k] = v
+			}
+		}
+		out = append(out, pd)
+	}
+	return out, nil
+}
+
+func smallFilters(which int) []filterSpec {
+	s := func(x string) *string { return &x }
+	switch which {
+	case 0:
+		return []filterSpec{{Kind: "A", Regex: s("^t/a$")}}
+	case 1:
+		return []filterSpec{{Kind: "N", Key: "k"}}
+	default:
+		return []filterSpec{{Kind: "N", Key: "k", Regex: s("^v$")}, {Kind: "A", Regex: s("t/")}}
+	}
+}
+
+func runSmallF(c *smallFCase) {
+	n := len(c.Preds)
+	if c.Start < 0 || c.Start >= n {
+		return
+	}
+	id := run.NewID()
+	base := &stubSrc{byKey: map[string]int{}, preds: c.Preds}
+	src := stubFSrc{stubSrc: base, rich: c.Rich}
+	for i := 0; i < n; i++ {
+		d := src.desc(i)
+		base.descs = append(base.descs, d)
+		base.byKey[keyOf(d)] = i
+	}
+	fs := compileFilters(smallFilters(c.Filters))
+	mkOpts := func() oras.ExtendedCopyGraphOptions {
+		o := oras.ExtendedCopyGraphOptions{Depth: c.Limit}
+		for _, f := range fs {
+			if f.spec.Kind == "A" {
+				o.FilterArtifactType(f.re)
+			} else {
+				o.FilterAnnotation(f.spec.Key, f.re)
+			}
+		}
+		return o
+	}
+	replayObj := map[string]any{"smallfilter": c}
+	var roots []ocispec.Descriptor
+	var err error
+	if !bounded(func() { roots, err = oras.VerifFindRoots(context.Background(), src, base.descs[c.Start], mkOpts()) }) {
+		hangs++
+		run.OracleFail(id, "findroots-hang", "findRoots did not return on a small graph with filters", replayObj)
+		return
+	}
+	seen := map[int]bool{}
+	obs := "ERR"
+	if err == nil {
+		for _, r := range roots {
+			seen[base.byKey[keyOf(r)]] = true
+		}
+		obs = "OK " + idsString(sortedKeys(seen)) + " " + idsString(base.listed)
+	}
+	// model input
+	keep := func(p int) bool {
+		a := smallAttrs(p)
+		for _, f := range fs {
+			if f.spec.Kind == "A" {
+				if !f.re.MatchString(a.eff()) {
+					return false
+				}
+			} else {
+				v, ok := a.ann[f.spec.Key]
+				if !ok || (f.re != nil && !f.re.MatchString(v)) {
+					return false
+				}
+			}
+		}
+		return true
+	}
+	atPool := []string{"", "t/a", "t/b", "c/x"}
+	annPool := []string{"", "v", "w"}
+	ftoks := []string{fmt.Sprint(len(fs))}
+	for _, f := range fs {
+		switch {
+		case f.spec.Kind == "A":
+			ftoks = append(ftoks, "A", tableTok(f.re, atPool))
+		case f.re == nil:
+			ftoks = append(ftoks, "N0", common.Hex(f.spec.Key))
+		default:
+			ftoks = append(ftoks, "N", common.Hex(f.spec.Key), tableTok(f.re, annPool))
+		}
+	}
+	var ntoks []string
+	for i := 0; i < n; i++ {
+		a := smallAttrs(i)
+		ntoks = append(ntoks, a.kind, common.Hex(a.at), common.Hex(a.cfg), annTok(a.ann), fmt.Sprint(len(c.Preds[i])))
+		for _, p := range c.Preds[i] {
+			pa := smallAttrs(p)
+			if c.Rich {
+				m := map[string]string{}
+				for k, v := range pa.ann {
+					m[k] = v
+				}
+				ntoks = append(ntoks, fmt.Sprint(p), common.Hex(pa.eff()), annTok(m))
+			} else {
+				ntoks = append(ntoks, fmt.Sprint(p), "-", "~")
+			}
+		}
+	}
+	js, _ := json.Marshal(replayObj)
+	tail := ""
+	for _, t := range append(ftoks, ntoks...) {
+		tail += " " + t
+	}
+	run.Case(id, fmt.Sprintf("FR %d %d %d 0%s %s", n, c.Limit, c.Start, tail, rawReplayTok(js)), obs)
+	run.Count("small-scope-filters")
+	run.Nontrivial(fmt.Sprintf("FRF %d %d %v %d%s", c.Limit, c.Start, c.Rich, c.Filters, tail))
+	fail := func(sig, msg string) { run.OracleFail(id, sig, msg, replayObj) }
+	if err != nil {
+		fail("unexpected-error", fmt.Sprintf("findRoots on the stub source with filters: %v", err))
+		return
+	}
+	// opts.FindPredecessors per node: exactness
+	o := mkOpts()
+	for x := 0; x < n; x++ {
+		fid := run.NewID()
+		out, ferr := o.FindPredecessors(context.Background(), src, base.descs[x])
+		fobs := "ERR"
+		var got, want []int
+		if ferr == nil {
+			fobs = "P"
+			for _, p := range out {
+				pid := base.byKey[keyOf(p)]
+				got = append(got, pid)
+				fobs += fmt.Sprintf(" %d:%s:%s", pid, common.Hex(p.ArtifactType), annTok(p.Annotations))
+			}
+		}
+		run.Case(fid, fmt.Sprintf("FP %d %d 0%s %s", n, x, tail, rawReplayTok(js)), fobs)
+		for _, p := range c.Preds[x] {
+			if keep(p) {
+				want = append(want, p)
+			}
+		}
+		if ferr != nil {
+			run.OracleFail(fid, "unexpected-error", fmt.Sprintf("FindPredecessors(%d): %v", x, ferr), replayObj)
+		} else if idsString(got) != idsString(want) { // order preserved
+			run.OracleFail(fid, "filter-exact", fmt.Sprintf("small graph %v filters %d rich %v: node %d follows %v, manifests satisfying the filters (in served order) %v", c.Preds, c.Filters, c.Rich, x, got, want), replayObj)
+		}
+	}
+	// roots: unlimited = tops of the filtered closure
+	if c.Limit <= 0 {
+		reach := map[int]bool{c.Start: true}
+		queue := []int{c.Start}
+		for len(queue) > 0 {
+			x := queue[0]
+			queue = queue[1:]
+			for _, p := range c.Preds[x] {
+				if keep(p) && !reach[p] {
+					reach[p] = true
+					queue = append(queue, p)
+				}
+			}
+		}
+		var want []int
+		for a := range reach {
+			top := true
+			for _, p := range c.Preds[a] {
+				if keep(p) {
+					top = false
+				}
+			}
+			if top {
+				want = append(want, a)
+			}
+		}
+		sort.Ints(want)
+		if idsString(want) != idsString(sortedKeys(seen)) {
+			fail("roots-filtered", fmt.Sprintf("small graph %v from %d filters %d: roots %v, tops of the filtered closure %v", c.Preds, c.Start, c.Filters, sortedKeys(seen), want))
+		}
+	}
+}
+
+func smallScopeFilters() {
+	maxN := run.Scale(3, 4)
+	for n := 2; n <= maxN && hangs == 0; n++ {
+		var pairs [][2]int
+		for i := 0; i < n; i++ {
+			for j := i + 1; j < n; j++ {
+				pairs = append(pairs, [2]int{i, j})
+			}
+		}
+		for mask := 0; mask < 1<<len(pairs) && hangs == 0; mask++ {
+			base := make([][]int, n)
+			for b, pr := range pairs {
+				if mask&(1<<b) != 0 {
+					base[pr[0]] = append(base[pr[0]], pr[1])
+				}
+			}
+			rev := make([][]int, n)
+			for i := range base {
+				for k := len(base[i]) - 1; k >= 0; k-- {
+					rev[i] = append(rev[i], base[i][k])
+				}
+			}
+			for _, o := range [][][]int{base, rev} {
+				for start := 0; start < n; start++ {
+					for _, depth := range []int{0, 1} {
+						for _, rich := range []bool{false, true} {
+							for f := 0; f < 3; f++ {
+								runSmallF(&smallFCase{Preds: o, Start: start, Limit: depth, Rich: rich, Filters: f})
+							}
+						}
 					}
 				}
 			}
